@@ -1318,7 +1318,9 @@ class SharedSpaceOperations:
             if impl:
                 return True, impl.interface
             else:
-                return True, base.interface._impl.interface_cls(null_impl)
+                # The sub space has no corresponding object (child spaces
+                # are not inherited): keep referring to the original
+                return False, base.interface
         else:
             return False, base.interface
 
